@@ -49,8 +49,9 @@ def _arc_cow_order(F, A, b, prs, rep, tag):
     for p in prs:
         ev = p.events
         i_clone = idx_of(ev, lambda e: e["kind"] == "UCLONE")
+        i_helper = idx_of(ev, lambda e: e["kind"] == "CALL" and vget(e["vec"], "uclone") and vget(e["vec"], "alloc") and c04.released(e["vec"]))
         i_new = idx_of(ev, lambda e: vget(e["vec"], "alloc") > 0)
-        i_drop = idx_of(ev, lambda e: e["kind"] == "DROP" and vget(e["vec"], "dec") > 0)
+        i_drop = idx_of(ev, lambda e: e["kind"] == "DROP" and c04.released(e["vec"]) > 0)
         i_gate = idx_of(ev, lambda e: e["kind"] == "CALL" and _is_gate(F, e["detail"].get("callee")))
         # the mutable borrow handed out (payload borrow or &mut Arc -> &mut UniqueArc cast)
         i_ref = None
@@ -61,6 +62,11 @@ def _arc_cow_order(F, A, b, prs, rep, tag):
                 i_ref = i
         if i_gate is None:
             ok_gate, why = False, balance.path_report(F, b, p, "no uniqueness test on this path before mutable access is handed out")
+            continue
+        if i_clone is None and i_helper is not None:
+            # the slow path lives in a helper (clone, fresh block, release inside one call): the borrow must come after it
+            if i_ref is None or not (i_gate < i_helper < i_ref):
+                ok_order, why = False, balance.path_report(F, b, p, "the mutable borrow must be taken after the helper that clones and redirects the handle")
             continue
         if i_clone is None:
             # unique path: nothing but the gate and the borrow
@@ -82,7 +88,7 @@ def _arc_cow_order(F, A, b, prs, rep, tag):
     clone_bbs = set()
     for p in prs:
         for e in p.events:
-            if e["kind"] == "UCLONE":
+            if e["kind"] == "UCLONE" or vget(e["vec"], "uclone"):
                 clone_bbs.add(e["bb"])
     rt = B.reach(true_tgt, normal_only=True, avoid=()) if true_tgt is not None else set()
     rf = B.reach(false_tgt, normal_only=True) if false_tgt is not None else set()
